@@ -42,6 +42,7 @@ struct SessionContext {
     size_t history_index = 0;   //! 0表示不指定历史命令
 
     KeyEventScanner key_event_scanner_;
+    bool is_last_cr_taken_as_enter = false;  //!< 上一段数据以单独的CR结束，且已当作回车处理
 
     uint16_t window_width = 0;
     uint16_t window_height = 0;
